@@ -87,6 +87,8 @@ def run_tlc(module: str, cfg: str, name: str, *, workers: int | str = "auto", ti
     else:
         cmd += [os.path.join(spec_dir, module + ".tla")]
     e = dict(os.environ)
+    if "-Xmx" not in java_opts:
+        java_opts = (java_opts + " -Xmx4g").strip()     # the models are small; do not let each JVM reserve a quarter of the RAM
     jo = java_opts
     if dfs:
         jo += " -Dtlc2.tool.queue.IStateQueue=StateDeque"
